@@ -1014,6 +1014,23 @@ class SpectrumAnalyzer:
         return results_block
 
 
+def _complex_over_real(num, den, where):
+    """
+    Element-wise ``num / den`` for complex ``num`` and real ``den`` (0 where
+    ``where`` is False), dividing the real and imaginary parts separately.
+
+    NumPy's complex division forms ``1 / den`` first, which overflows for a
+    subnormal ``den`` (mean squares of signals around 1e-157) although the
+    quotient itself is representable.
+    """
+    num = np.asarray(num)
+    den = np.asarray(den, dtype=float)
+    out = np.zeros(den.shape, dtype=complex)
+    out.real = np.divide(num.real, den, out=np.zeros(den.shape), where=where)
+    out.imag = np.divide(num.imag, den, out=np.zeros(den.shape), where=where)
+    return out
+
+
 class SpectrumResult:
     """
     An immutable container for the results of a spectral analysis.
@@ -1220,11 +1237,10 @@ class SpectrumResult:
                     val = np.conj(self.Gxy)
                 elif name == "Hxy":
                     # Transfer function estimate conj(XY) / XX
-                    val = np.divide(
+                    val = _complex_over_real(
                         np.conj(self._data["XY"]),
                         self._data["XX"],
-                        out=np.zeros_like(self._data["XX"], dtype=complex),
-                        where=(self._data["XX"] != 0),
+                        self._data["XX"] != 0,
                     )
                 elif name == "Hyx":
                     val = np.conj(self.Hxy)
@@ -1245,11 +1261,13 @@ class SpectrumResult:
                         where=nonzero,
                     )
                 elif name == "ccoh":
-                    val = np.divide(
-                        self._data["XY"],
-                        np.sqrt(self._data["XX"]) * np.sqrt(self._data["YY"]),
-                        out=np.zeros_like(self._data["XX"], dtype=complex),
-                        where=(self._data["XX"] != 0) & (self._data["YY"] != 0),
+                    nonzero = (self._data["XX"] != 0) & (self._data["YY"] != 0)
+                    val = _complex_over_real(
+                        _complex_over_real(
+                            self._data["XY"], np.sqrt(self._data["XX"]), nonzero
+                        ),
+                        np.sqrt(self._data["YY"]),
+                        nonzero,
                     )
                 elif name == "cs":
                     val = self.csd * self.ENBW
